@@ -69,7 +69,7 @@ type World struct {
 	Depth int
 
 	// oracle state (implementation observations only)
-	Roots      []int          // register history as seen by fresh opens, Roots[0] = 0
+	Roots      []int // register history as seen by fresh opens, Roots[0] = 0
 	PendingAck [maxHandles]map[int]bool
 	Acked      map[int]bool
 	HandleIdx  [maxHandles]int // index into Roots of the newest root this handle has reported
@@ -79,9 +79,10 @@ type World struct {
 	lockHeld   bool
 
 	// C07
-	NoCasOracle bool // nbsrefs: the C02 register rules are C02's business; only "a rejected write leaves the root alone" is kept
-	RefsOracle  bool
-	UnsafeAdded map[int]bool // chunks that entered through AddTableFilesToManifest while the store was uninitialised (root = 0)
+	NoCasOracle   bool // nbsrefs: the C02 register rules are C02's business; only "a rejected write leaves the root alone" is kept
+	RefsOracle    bool
+	AddedByTables map[int]bool // chunks that entered through any successful AddTableFilesToManifest
+	UnsafeAdded   map[int]bool // chunks that entered through AddTableFilesToManifest while the store was uninitialised (root = 0)
 }
 
 func NewWorld(e *hx.Env, m *hx.Model, dir, mode string, defs []ChunkDef) *World {
@@ -167,6 +168,15 @@ func ErrClass(err error) string {
 	case errors.Is(err, nbs.ErrDanglingRef):
 		return "err dangling"
 	case errors.Is(err, nbs.ErrManifestSpecMissingTableFile):
+		if os.Getenv("VERIF_DEBUG") != "" {
+			fmt.Fprintln(os.Stderr, "DEBUG missing-file:", err)
+			if i := strings.LastIndex(err.Error(), " in "); i >= 0 {
+				ents, _ := os.ReadDir(err.Error()[i+4:])
+				for _, en := range ents {
+					fmt.Fprintln(os.Stderr, "   ", en.Name())
+				}
+			}
+		}
 		return "err missing-file"
 	case errors.Is(err, nbs.ErrTableFileNotFound) && strings.Contains(err.Error(), "refCheckAllSources"):
 		return "err dangling"
@@ -178,6 +188,8 @@ func ErrClass(err error) string {
 		return "err zero-chunks"
 	case strings.Contains(err.Error(), "failed to add chunk"):
 		return "err put-failed"
+	case strings.Contains(err.Error(), "no table files to conjoin"):
+		return "err no-tables"
 	case strings.Contains(err.Error(), "new manifest created with non 0 lock"):
 		return "err new-manifest-nonzero-lock"
 	}
@@ -512,6 +524,22 @@ func (w *World) do(op *Op) string {
 			return "rejected"
 		}
 		return w.doCommit(op, st)
+	case "conjoin":
+		if st == nil {
+			return "rejected"
+		}
+		// ConjoinTableFiles(nil): conjoin every table of this handle's (possibly stale) view and land it; a conjoin only
+		// rewrites the table specs, so the register oracle demands that the persisted root does not move
+		_, err := st.ConjoinTableFiles(w.Ctx, nil)
+		res := ErrClass(err)
+		w.compare(*op, fmt.Sprintf("conjoin %d", h), res)
+		if w.top() {
+			w.observe("none", 0, 0, fmtOp(*op))
+		}
+		if err == nil {
+			w.Flags["conjoin"] = true
+		}
+		return res
 	case "wtable":
 		return w.doWriteTable(op)
 	case "addtables":
@@ -708,8 +736,12 @@ func (w *World) doAddTables(op *Op, st *nbs.NomsBlockStore) string {
 		w.E.Rep.Hit("addtables:into-uninitialized-store")
 	}
 	if err == nil {
+		if w.AddedByTables == nil {
+			w.AddedByTables = map[int]bool{}
+		}
 		for _, t := range op.Tables {
 			for _, id := range t {
+				w.AddedByTables[id] = true
 				w.Acked[id] = true // AddTableFilesToManifest is itself a manifest update: the files' chunks are persisted
 			}
 		}
@@ -754,6 +786,11 @@ func (w *World) CheckClosure(what string) {
 		ok, err := st.Has(w.Ctx, w.H(a))
 		if err != nil || !ok {
 			key := "C07/reachable-chunk-missing"
+			if p, okp := parent[a]; okp && w.AddedByTables[p] && !w.UnsafeAdded[p] {
+				// the referrer came in through AddTableFilesToManifest with a root present: its reference check was
+				// satisfied by a chunk the adding handle had not persisted (memtable / novel table)
+				key = "C07/addtablefiles-ref-resolved-by-unpersisted-chunk"
+			}
 			if p, okp := parent[a]; okp && w.UnsafeAdded[p] {
 				key = "C07/addtablefiles-into-uninitialized-store-skips-refcheck"
 			} else if !okp && w.UnsafeAdded[a] {
